@@ -9,9 +9,18 @@
      or without growth: the model reads the argument before anything moves, and the model is what the lock-step
      correspondence compares with the implementation on the complete aliasing grid (every size <= 5 (6), position, source
      index, count <= 3, with and without spare capacity, lvalue and rvalue forms, all configurations), std::vector doing the
-     same call as direct oracle under ASan. *)
+     same call as direct oracle under ASan.
+   - [C10_own_element_*] (AliasThrow.v): the member functions insert(pos, v), insert(pos, n, v), push_back(v) with v an own
+     element, for both element flavours, WITH the throw oracle and WITH growth (the reference is a slot index read when the code
+     reads it - reading a vacated slot is an error of the model; old block, new block and the two temporaries are slots of one
+     memory): never a lifetime error; on completion the list std::vector gives (the value v had before the call), in the old
+     block within capacity and in the new one otherwise; a throw within capacity leaves every slot as before.  When the vector has
+     to grow first, the copy is made after the reallocation: a throwing copy then leaves the CONTENTS intact but in the new block
+     ([C10_own_element_push_back_grow_slots_refuted]: the strong guarantee holds on the value interface only - capacity and
+     addresses have changed, which std::vector avoids; this is how C09 reads "left exactly as it was", DESIGN section 9). *)
 From Coq Require Import ZArith List Bool.
 From Amc Require Import GenPrelude Words VecModel VecProofs Slots Alias.
+From Amc Require Throw EmplaceGrow AliasThrow.
 Import ListNotations.
 Local Open Scope Z_scope.
 
@@ -32,3 +41,40 @@ Theorem C10_model_own_argument_as_if_copied :
   (forall n, step c p (AssignN a n (AOwn i)) = step c p (AssignN a n (AExt (nth i (els v) 0)))) /\
   (forall n, step c p (AppendNV a n (AOwn i)) = step c p (AppendNV a n (AExt (nth i (els v) 0)))).
 Proof. exact own_as_ext. Qed.
+
+(* ---- own-element arguments through the member functions, with throws and growth (both element flavours) ---- *)
+Local Close Scope Z_scope.
+Theorem C10_own_element_insert :
+  forall tr m th size cap pos src e t nb,
+  AliasThrow.OwnPre m size cap e t nb -> pos <= size -> src < size ->
+  match AliasThrow.insert_own tr m th size cap pos src e t nb with
+  | Throw.Done m' _ => exists b' c', AliasThrow.After m m' cap e t nb b' c' (size + 1) /\ (b' = 0 <-> size < cap) /\ (size = cap -> c' = EmplaceGrow.next_cap size) /\
+                   AliasThrow.vals m' b' (size + 1) = Slots.spec_insert (AliasThrow.vals m 0 size) pos 1 (nth src (AliasThrow.vals m 0 size) 0%Z)
+  | Throw.Threw m' => (forall j, m' j = m j) \/
+                (size = cap /\ src < pos /\ AliasThrow.After m m' cap e t nb nb (EmplaceGrow.next_cap size) size /\ AliasThrow.vals m' nb size = AliasThrow.vals m 0 size)
+  | Throw.Err _ => False end.
+Proof. exact AliasThrow.insert_own_spec. Qed.
+
+Theorem C10_own_element_insert_within_capacity_strong :
+  forall tr m th size cap pos src e t nb m',
+  AliasThrow.OwnPre m size cap e t nb -> pos <= size -> src < size -> size < cap ->
+  AliasThrow.insert_own tr m th size cap pos src e t nb = Throw.Threw m' -> forall j, m' j = m j.
+Proof. exact AliasThrow.insert_own_strong_incap. Qed.
+
+Theorem C10_own_element_insert_count_within_capacity_strong :
+  forall tr m th size cap pos count src e t nb m',
+  AliasThrow.OwnPre m size cap e t nb -> pos <= size -> src < size -> size + count <= cap ->
+  AliasThrow.insert_cnt_own tr m th size cap pos count src t nb = Throw.Threw m' -> forall j, m' j = m j.
+Proof. exact AliasThrow.insert_cnt_own_strong_incap. Qed.
+
+Theorem C10_own_element_push_back_within_capacity_strong :
+  forall tr m th size cap src e t nb m',
+  AliasThrow.OwnPre m size cap e t nb -> src < size -> size < cap ->
+  AliasThrow.push_back_own tr m th size cap src nb = Throw.Threw m' -> forall j, m' j = m j.
+Proof. exact AliasThrow.push_back_own_strong_incap. Qed.
+
+Theorem C10_own_element_push_back_grow_slots_refuted :
+  forall tr, exists m th size cap src e t nb m',
+  AliasThrow.OwnPre m size cap e t nb /\ src < size /\ AliasThrow.push_back_own tr m th size cap src nb = Throw.Threw m' /\
+  m 0 = Throw.Live 10%Z /\ m' 0 = Throw.Out /\ m' nb = Throw.Live 10%Z /\ ~ (forall j, m' j = m j).
+Proof. exact AliasThrow.push_back_own_grow_slots_refuted. Qed.
